@@ -7,6 +7,7 @@ import (
 	"regexp"
 	"strings"
 	"time"
+	"verif/harness/mgjson"
 
 	"codeberg.org/TauCeti/mangle-go/analysis"
 	"codeberg.org/TauCeti/mangle-go/ast"
@@ -26,6 +27,74 @@ type CrashCase struct {
 	Pos  int      `json:"pos,omitempty"`
 	Tok  string   `json:"tok,omitempty"`
 	Text string   `json:"text,omitempty"`
+	// kind "prog": a generated program (ProgGen case) rendered as source text
+	Rules []mgjson.Clause `json:"rules,omitempty"`
+	Edb   []mgjson.Atom   `json:"edb,omitempty"`
+	// kind "decl": pieces of a declaration and one use of the declared predicate (spec/DeclGen.tla)
+	Arity int    `json:"arity,omitempty"`
+	Descr string `json:"descr,omitempty"`
+	Ty    string `json:"ty,omitempty"`
+	Ty2   string `json:"ty2,omitempty"`
+	Use   string `json:"use,omitempty"`
+}
+
+// declText assembles "Decl p(X0..) descr [D] bound [T..] bound [T2..]." and one use of p.
+func declText(c CrashCase) string {
+	vars := make([]string, c.Arity)
+	consts := make([]string, c.Arity)
+	for i := range vars {
+		vars[i] = fmt.Sprintf("X%d", i)
+		consts[i] = fmt.Sprint(i + 1)
+	}
+	hd := "p(" + strings.Join(vars, ", ") + ")"
+	row := func(t string) string {
+		if t == "" || c.Arity == 0 {
+			return ""
+		}
+		ts := make([]string, c.Arity)
+		for i := range ts {
+			ts[i] = t
+		}
+		return " bound [" + strings.Join(ts, ", ") + "]"
+	}
+	var sb strings.Builder
+	sb.WriteString("Decl " + hd)
+	if c.Descr != "" {
+		sb.WriteString(" descr [" + c.Descr + "]")
+	}
+	sb.WriteString(row(c.Ty) + row(c.Ty2) + ".\n")
+	if strings.Contains(c.Descr, "'mp'") {
+		sb.WriteString("Decl mp(A, B, C) descr [mode('+', '+', '-'), deferred()].\nmp(A, B, C) :- A < B, C = A.\nmp(A, B, C) :- B <= A, C = B.\n")
+	}
+	src := "src(" + strings.Join(consts, ", ") + ")"
+	switch c.Use {
+	case "fact":
+		sb.WriteString("p(" + strings.Join(consts, ", ") + ").\n")
+	case "fact_struct":
+		if c.Arity > 0 {
+			args := append([]string{"{/a: 1}"}, consts[1:]...)
+			sb.WriteString("p(" + strings.Join(args, ", ") + ").\n")
+		}
+	case "head":
+		sb.WriteString(src + ".\n" + hd + " :- src(" + strings.Join(vars, ", ") + ").\n")
+	case "body":
+		sb.WriteString(src + ".\nu(1) :- src(" + strings.Join(vars, ", ") + "), " + hd + ".\n")
+	case "negbody":
+		sb.WriteString(src + ".\nu(1) :- src(" + strings.Join(vars, ", ") + "), !" + hd + ".\n")
+	case "field":
+		if c.Arity > 0 {
+			sb.WriteString("p(" + strings.Join(append([]string{"{/a: 1}"}, consts[1:]...), ", ") + ").\nu(Y) :- " + hd + ", :match_field(X0, /b, Y).\n")
+		}
+	case "pair":
+		if c.Arity > 0 {
+			sb.WriteString("u(Y) :- " + hd + ", :match_pair(X0, Y, _).\n")
+		}
+	case "member":
+		if c.Arity > 0 {
+			sb.WriteString("u(Y) :- " + hd + ", :list:member(Y, X0).\nv(Y) :- " + hd + ", :match_entry(X0, 1, Y).\n")
+		}
+	}
+	return sb.String()
 }
 
 type Stage struct {
@@ -268,12 +337,23 @@ func cmdCrash(args []string) error {
 			}
 			res.Input = applyScEdit(scseeds[(c.Seed-1)%len(scseeds)], c.Op, c.Pos)
 			res.Stages = scStages([]byte(res.Input))
+		case "decl":
+			res.Input = declText(c)
+			res.Stages = frontEnd(res.Input)
+		case "prog", "":
+			if len(c.Rules) > 0 || len(c.Edb) > 0 {
+				res.Kind = "prog"
+				res.Input = programText(EvalCase{Rules: c.Rules, Edb: c.Edb}, true, nil)
+				res.Stages = frontEnd(res.Input)
+				break
+			}
+			fallthrough
 		default:
 			res.Input = c.Text
 			res.Stages = frontEnd(res.Input)
 		}
-		if len(res.Input) > 600 {
-			res.Input = res.Input[:600]
+		if len(res.Input) > 1500 {
+			res.Input = res.Input[:1500]
 		}
 		return res, nil
 	})
